@@ -42,7 +42,7 @@ def run(tier, seed):
                 if got == 0:
                     ctx.count("pair_shapes_not_instantiated")
     npairs = len(progs)
-    nrand = 3000 if tier == "quick" else core.share(50000)
+    nrand = 3000 if tier == "quick" else core.share(150000)
     depth = 4 if tier == "quick" else 5
     while len(progs) < npairs + nrand:
         g = DG(rng, capture_rate=0.03)
